@@ -11,7 +11,7 @@ import math
 import numpy as np
 from numpy.polynomial import legendre as L
 
-from ..kernel import chance, pick, wpick, adigest, Precondition
+from ..kernel import chance, pick, wpick, adigest, Precondition, scribble
 from .. import present
 
 REAL = ["esutil.integrate.QGauss/QGauss2/qgauss/gauleg (Python + _cgauleg C)", "esutil.stat.interplin"]
@@ -583,6 +583,9 @@ def _judge_rule(run, integrate, a, b, n):
                 msgs.append("weights differ from leggauss by %.3e (b-a)" % (ew / W))
     if msgs:
         run.fail("quad.rule", feats, "gauleg(%r,%r,%d): " % (a, b, n) + "; ".join(msgs))
+    # the caller owns the rule it was handed and edits it; later rules and integrals must not care
+    if scribble((x, w)):
+        run.fault("caller_edited_a_result_in_place")
 
 
 def _judge_poly(run, integrate, op):
